@@ -1,1 +1,329 @@
-pub fn run(_seed: u64, _thorough: bool) -> u64 { 0 }
+//! C13 bounded checker: "a market-data message for a subscribed market is normalised into an event that carries the key of
+//! exactly the instrument subscribed under that market and the exchange's id, with price, amount, side and exchange time
+//! as stated in the message; a message for a market that was not subscribed yields an unidentifiable-subscription error".
+//! Joins the subscription side (REAL `WebSocketSubMapper::map` -> `Map<InstrumentKey>`) with the message side (REAL serde
+//! deserialisation of venue JSON payloads into the connector's message type, REAL `StatelessTransformer` =
+//! `Identifier<Option<SubscriptionId>>` + `Map::find` + `MarketIter::from`) for every (connector, kind) pair below and
+//! three instrument flavours (MarketDataInstrument, Keyed<_, MarketDataInstrument>, MarketInstrumentData<_>).
+//! The venue side (how a venue names a market in its messages, payload layouts, exchange ids) is modelled HERE,
+//! independently of the connector code.
+use crate::{eng::Rng, report};
+use barter_data::{
+    ExchangeWsStream, Identifier,
+    error::DataError,
+    event::{MarketEvent, MarketIter},
+    exchange::{
+        Connector, StreamSelector,
+        binance::{book::l1::BinanceOrderBookL1, futures::BinanceFuturesUsd, spot::BinanceSpot, trade::BinanceTrade},
+        bitmex::{Bitmex, trade::BitmexTrade},
+        bybit::{futures::BybitPerpetualsUsd, message::BybitMessage, spot::BybitSpot},
+        coinbase::{Coinbase, trade::CoinbaseTrade},
+        gateio::{
+            future::{GateioFuturesBtc, GateioFuturesUsd},
+            option::GateioOptions,
+            perpetual::{GateioPerpetualsBtc, GateioPerpetualsUsd, trade::GateioFuturesTrades},
+            spot::{GateioSpot, trade::GateioSpotTrade},
+        },
+        kraken::{Kraken, book::l1::KrakenOrderBookL1, trade::KrakenTrades},
+        okx::{Okx, trade::OkxTrades},
+    },
+    instrument::{InstrumentData, MarketInstrumentData},
+    subscriber::mapper::{SubscriptionMapper, WebSocketSubMapper},
+    subscription::{
+        Subscription, SubscriptionKind, SubscriptionMeta,
+        book::{OrderBookL1, OrderBooksL1},
+        trade::{PublicTrade, PublicTrades},
+    },
+    transformer::{ExchangeTransformer, stateless::StatelessTransformer},
+};
+use barter_instrument::{
+    Keyed, Side,
+    exchange::ExchangeId,
+    instrument::{
+        kind::option::{OptionExercise, OptionKind},
+        market_data::{
+            MarketDataInstrument,
+            kind::{MarketDataFutureContract, MarketDataInstrumentKind, MarketDataOptionContract},
+        },
+        name::InstrumentNameExchange,
+    },
+};
+use barter_integration::{Transformer, subscription::SubscriptionId};
+use chrono::{DateTime, SecondsFormat, TimeZone, Utc};
+use rust_decimal::Decimal;
+use serde::Deserialize;
+use std::{collections::HashSet, fmt::Debug, marker::PhantomData, str::FromStr};
+
+const L_SUBSCRIBED: &str = "C13.bounded.subscribed_market_yields_event";
+const L_KEY: &str = "C13.bounded.event_carries_subscribed_instrument_key";
+const L_EXCHANGE: &str = "C13.bounded.event_carries_exchange_id";
+const L_FIELDS: &str = "C13.bounded.price_amount_side_as_stated";
+const L_TIME: &str = "C13.bounded.exchange_time_as_stated";
+const L_UNSUB: &str = "C13.bounded.unsubscribed_market_is_unidentifiable";
+
+// ------------------------------------------------------------------------------------------------- venue side model
+#[derive(Clone, Copy, Debug, PartialEq, Eq)]
+enum V { BinanceSpot, BinanceFut, Okx, Kraken, Coinbase, BybitSpot, BybitPerp, GateSpot, GateFutUsd, GateFutBtc, GatePerpUsd, GatePerpBtc, GateOpt, Bitmex }
+#[derive(Clone, Copy, Debug, PartialEq, Eq)]
+enum SK { Trades, L1 }
+
+#[derive(Clone, Copy, Debug, PartialEq, Eq)]
+enum IK { Spot, Perp, Fut(i64), Opt { call: bool, strike: i64, expiry: i64 } }
+#[derive(Clone, Copy, Debug, PartialEq, Eq)]
+struct Inst { base: &'static str, quote: &'static str, kind: IK }
+
+const E1: i64 = 1_735_286_400; // 2024-12-27 08:00:00 UTC (Friday)
+const E2: i64 = 1_743_148_800; // 2025-03-28 08:00:00 UTC (Friday)
+const E3: i64 = 1_798_790_400; // 2027-01-01 08:00:00 UTC (Friday; ISO week-year 2026)
+fn date(ts: i64) -> DateTime<Utc> { Utc.timestamp_opt(ts, 0).unwrap() }
+
+impl Inst {
+    fn kind(&self) -> MarketDataInstrumentKind {
+        match self.kind {
+            IK::Spot => MarketDataInstrumentKind::Spot,
+            IK::Perp => MarketDataInstrumentKind::Perpetual,
+            IK::Fut(e) => MarketDataInstrumentKind::Future(MarketDataFutureContract { expiry: date(e) }),
+            IK::Opt { call, strike, expiry } => MarketDataInstrumentKind::Option(MarketDataOptionContract {
+                kind: if call { OptionKind::Call } else { OptionKind::Put }, exercise: OptionExercise::European, expiry: date(expiry), strike: Decimal::from(strike),
+            }),
+        }
+    }
+    fn mdi(&self) -> MarketDataInstrument { MarketDataInstrument::new(self.base, self.quote, self.kind()) }
+}
+
+fn exchange_id(v: V) -> ExchangeId {
+    match v {
+        V::BinanceSpot => ExchangeId::BinanceSpot, V::BinanceFut => ExchangeId::BinanceFuturesUsd, V::Okx => ExchangeId::Okx, V::Kraken => ExchangeId::Kraken,
+        V::Coinbase => ExchangeId::Coinbase, V::BybitSpot => ExchangeId::BybitSpot, V::BybitPerp => ExchangeId::BybitPerpetualsUsd, V::GateSpot => ExchangeId::GateioSpot,
+        V::GateFutUsd => ExchangeId::GateioFuturesUsd, V::GateFutBtc => ExchangeId::GateioFuturesBtc, V::GatePerpUsd => ExchangeId::GateioPerpetualsUsd,
+        V::GatePerpBtc => ExchangeId::GateioPerpetualsBtc, V::GateOpt => ExchangeId::GateioOptions, V::Bitmex => ExchangeId::Bitmex,
+    }
+}
+
+/// the name under which the venue reports the market of `i` in its messages
+fn venue_market(v: V, i: &Inst) -> String {
+    let (b, q) = (i.base.to_uppercase(), i.quote.to_uppercase());
+    let cp = |call: bool| if call { "C" } else { "P" };
+    match v {
+        V::BinanceSpot | V::BinanceFut | V::BybitSpot | V::BybitPerp | V::Bitmex => format!("{b}{q}"),
+        V::Kraken => format!("{b}/{q}"),
+        V::Coinbase => format!("{b}-{q}"),
+        V::Okx => match i.kind {
+            IK::Spot => format!("{b}-{q}"),
+            IK::Perp => format!("{b}-{q}-SWAP"),
+            IK::Fut(e) => format!("{b}-{q}-{}", date(e).format("%y%m%d")),
+            IK::Opt { call, strike, expiry } => format!("{b}-{q}-{}-{strike}-{}", date(expiry).format("%y%m%d"), cp(call)),
+        },
+        V::GateSpot | V::GateFutUsd | V::GateFutBtc | V::GatePerpUsd | V::GatePerpBtc | V::GateOpt => match i.kind {
+            IK::Spot | IK::Perp => format!("{b}_{q}"),
+            IK::Fut(e) => format!("{b}_{q}_QUARTERLY_{}", date(e).format("%Y%m%d")),
+            IK::Opt { call, strike, expiry } => format!("{b}_{q}-{}-{strike}-{}", date(expiry).format("%Y%m%d"), cp(call)),
+        },
+    }
+}
+
+#[derive(Clone, Debug)]
+struct Tr { price: &'static str, amount: &'static str, buy: bool, ts_ms: i64, id: u64 }
+#[derive(Clone, Debug)]
+struct Msg { market: String, trades: Vec<Tr>, bid: (&'static str, &'static str), ask: (&'static str, &'static str), ts_ms: i64 }
+
+fn multi(v: V) -> bool { !matches!(v, V::BinanceSpot | V::BinanceFut | V::Coinbase | V::GateSpot) }
+/// does the L1 message of the venue carry an exchange time?
+fn l1_has_time(v: V) -> bool { v != V::BinanceSpot }
+fn rfc(ts_ms: i64) -> String { Utc.timestamp_millis_opt(ts_ms).unwrap().to_rfc3339_opts(SecondsFormat::Millis, true) }
+
+fn payload(v: V, sk: SK, m: &Msg) -> String {
+    use serde_json::{Value, json};
+    let mk = &m.market;
+    let num = |s: &str| -> Value { serde_json::from_str(s).unwrap() };
+    let side_lc = |t: &Tr| if t.buy { "buy" } else { "sell" };
+    let side_uc = |t: &Tr| if t.buy { "Buy" } else { "Sell" };
+    let t0 = &m.trades[0];
+    match (v, sk) {
+        (V::BinanceSpot, SK::Trades) => json!({"e":"trade","E":t0.ts_ms + 3,"s":mk,"t":t0.id,"p":t0.price,"q":t0.amount,"b":1,"a":2,"T":t0.ts_ms,"m":!t0.buy,"M":true}),
+        (V::BinanceFut, SK::Trades) => json!({"e":"trade","E":t0.ts_ms + 3,"T":t0.ts_ms,"s":mk,"t":t0.id,"p":t0.price,"q":t0.amount,"X":"MARKET","m":!t0.buy}),
+        (V::BinanceSpot, SK::L1) => json!({"u":22606535573u64,"s":mk,"b":m.bid.0,"B":m.bid.1,"a":m.ask.0,"A":m.ask.1}),
+        (V::BinanceFut, SK::L1) => json!({"e":"bookTicker","u":22606535573u64,"E":m.ts_ms + 2,"T":m.ts_ms,"s":mk,"b":m.bid.0,"B":m.bid.1,"a":m.ask.0,"A":m.ask.1}),
+        (V::Okx, SK::Trades) => json!({"arg":{"channel":"trades","instId":mk},"data":m.trades.iter().map(|t| json!({"instId":mk,"tradeId":t.id.to_string(),"px":t.price,"sz":t.amount,"side":side_lc(t),"ts":t.ts_ms.to_string()})).collect::<Vec<_>>()}),
+        (V::Kraken, SK::Trades) => json!([0, m.trades.iter().map(|t| json!([t.price, t.amount, format!("{}.{:03}000", t.ts_ms / 1000, t.ts_ms % 1000), if t.buy { "b" } else { "s" }, "l", ""])).collect::<Vec<_>>(), "trade", mk]),
+        (V::Kraken, SK::L1) => json!([0, [m.bid.0, m.ask.0, format!("{}.{:03}000", m.ts_ms / 1000, m.ts_ms % 1000), m.bid.1, m.ask.1], "spread", mk]),
+        (V::Coinbase, SK::Trades) => json!({"type":"match","trade_id":t0.id,"sequence":50,"maker_order_id":"ac928c66-ca53-498f-9c13-a110027a60e8","taker_order_id":"132fb6ae-456b-4654-b4e0-d681ac05cea1","time":rfc(t0.ts_ms),"product_id":mk,"size":t0.amount,"price":t0.price,"side":side_lc(t0)}),
+        (V::BybitSpot | V::BybitPerp, SK::Trades) => json!({"topic":format!("publicTrade.{mk}"),"type":"snapshot","ts":t0.ts_ms + 1,"data":m.trades.iter().map(|t| json!({"T":t.ts_ms,"s":mk,"S":side_uc(t),"v":t.amount,"p":t.price,"L":"PlusTick","i":format!("id-{}", t.id),"BT":false})).collect::<Vec<_>>()}),
+        (V::GateSpot, SK::Trades) => json!({"time":t0.ts_ms / 1000,"time_ms":t0.ts_ms + 9,"channel":"spot.trades","event":"update","result":{"id":t0.id,"create_time":t0.ts_ms / 1000,"create_time_ms":format!("{}.4578", t0.ts_ms),"side":side_lc(t0),"currency_pair":mk,"amount":t0.amount,"price":t0.price}}),
+        (V::GateFutUsd | V::GateFutBtc | V::GatePerpUsd | V::GatePerpBtc | V::GateOpt, SK::Trades) => json!({"time":t0.ts_ms / 1000,"time_ms":t0.ts_ms + 9,"channel":if v == V::GateOpt { "options.trades" } else { "futures.trades" },"event":"update",
+            "result":m.trades.iter().map(|t| json!({"contract":mk,"create_time":t.ts_ms / 1000,"create_time_ms":t.ts_ms,"id":t.id,"price":t.price,"size":num(&format!("{}{}", if t.buy { "" } else { "-" }, t.amount))})).collect::<Vec<_>>()}),
+        (V::Bitmex, SK::Trades) => json!({"table":"trade","action":"insert","data":m.trades.iter().map(|t| json!({"timestamp":rfc(t.ts_ms),"symbol":mk,"side":side_uc(t),"size":num(t.amount),"price":num(t.price),"tickDirection":"MinusTick","trdMatchID":format!("id-{}", t.id),"grossValue":814184,"homeNotional":0.5,"foreignNotional":200,"trdType":"Regular"})).collect::<Vec<_>>()}),
+        other => panic!("no payload layout for {other:?}"),
+    }.to_string()
+}
+
+// ------------------------------------------------------------------------------------------------- observation
+#[derive(Debug, PartialEq)]
+enum Fields { Trade { price: f64, amount: f64, side: Side }, L1 { bid: Option<(Decimal, Decimal)>, ask: Option<(Decimal, Decimal)> } }
+trait Observe { fn fields(&self) -> Fields; }
+impl Observe for PublicTrade { fn fields(&self) -> Fields { Fields::Trade { price: self.price, amount: self.amount, side: self.side } } }
+impl Observe for OrderBookL1 {
+    fn fields(&self) -> Fields { Fields::L1 { bid: self.best_bid.map(|l| (l.price, l.amount)), ask: self.best_ask.map(|l| (l.price, l.amount)) } }
+}
+
+/// what the venue states in message `m` (one entry per normalised event)
+fn stated(v: V, sk: SK, m: &Msg) -> Vec<(Fields, Option<i64>)> {
+    let d = |s: &str| Decimal::from_str(s).unwrap();
+    match sk {
+        SK::L1 => vec![(Fields::L1 { bid: Some((d(m.bid.0), d(m.bid.1))), ask: Some((d(m.ask.0), d(m.ask.1))) }, l1_has_time(v).then_some(m.ts_ms))],
+        SK::Trades => m.trades.iter().take(if multi(v) { usize::MAX } else { 1 }).map(|t| {
+            let amount: f64 = t.amount.parse().unwrap();
+            // Gateio contract trades state a signed size: sign = taker side
+            let signed = matches!(v, V::GateFutUsd | V::GateFutBtc | V::GatePerpUsd | V::GatePerpBtc | V::GateOpt) && !t.buy;
+            (Fields::Trade { price: t.price.parse().unwrap(), amount: if signed { -amount } else { amount }, side: if t.buy { Side::Buy } else { Side::Sell } }, Some(t.ts_ms))
+        }).collect(),
+    }
+}
+
+type Outs<K, E> = Vec<Result<Vec<Result<MarketEvent<K, E>, DataError>>, String>>;
+
+/// subscription side + message side, all real code
+fn drive<Ex, I, K, M>(subs: &[Subscription<Ex, I, K>], payloads: &[String]) -> Result<Outs<I::Key, K::Event>, String>
+where
+    Ex: Connector + Send,
+    I: InstrumentData,
+    K: SubscriptionKind + Send,
+    Subscription<Ex, I, K>: Identifier<Ex::Channel> + Identifier<Ex::Market>,
+    M: Identifier<Option<SubscriptionId>> + for<'de> Deserialize<'de> + Send,
+    MarketIter<I::Key, K::Event>: From<(ExchangeId, I::Key, M)>,
+{
+    let SubscriptionMeta { instrument_map, .. } = WebSocketSubMapper::map::<Ex, I, K>(subs);
+    let (tx, _rx) = tokio::sync::mpsc::unbounded_channel();
+    let mut tf = futures::executor::block_on(<StatelessTransformer<Ex, I::Key, K, M> as ExchangeTransformer<Ex, I::Key, K>>::init(instrument_map, &[], tx)).map_err(|e| e.to_string())?;
+    Ok(payloads.iter().map(|p| serde_json::from_str::<M>(p).map(|m| tf.transform(m)).map_err(|e| e.to_string())).collect())
+}
+
+struct St { seen: HashSet<&'static str>, n: u64 }
+
+fn judge<K: PartialEq + Debug, E: Observe>(st: &mut St, v: V, sk: SK, flavour: &str, list: &[Inst], keys: &[K], msgs: &[Msg], payloads: &[String], outs: Result<Outs<K, E>, String>) {
+    let input = |k: usize| format!("{v:?} {sk:?}, instruments as {flavour}; subscriptions (in order) [{}]; message for market {:?}: {}", list.iter().enumerate().map(|(j, i)| format!("#{j} {}/{} {:?} (venue market {})", i.base, i.quote, i.kind, venue_market(v, i))).collect::<Vec<_>>().join(", "), msgs[k].market, payloads[k]);
+    let outs = match outs { Ok(o) => o, Err(e) => { if st.seen.insert(L_SUBSCRIBED) { report(L_SUBSCRIBED, input(0), format!("transformer initialisation failed: {e}"), "transformer".into()); } return; } };
+    for (k, (m, out)) in msgs.iter().zip(outs).enumerate() {
+        st.n += 1;
+        let mut fail = |label: &'static str, observed: String, expected: String| { if st.seen.insert(label) { report(label, input(k), observed, expected); } };
+        let subscribed: Vec<usize> = (0..list.len()).filter(|j| venue_market(v, &list[*j]) == m.market).collect();
+        let out = match out { Ok(o) => o, Err(e) => { fail(if subscribed.is_empty() { L_UNSUB } else { L_SUBSCRIBED }, format!("payload rejected by the connector's message type: {e}"), "deserialised".into()); continue; } };
+        if subscribed.is_empty() {
+            let ok = out.len() == 1 && matches!(&out[0], Err(DataError::Socket(e)) if e.contains("unidentifiable"));
+            if !ok {
+                fail(L_UNSUB, format!("{:?}", out.iter().map(|r| match r { Ok(ev) => format!("event for instrument {:?}", ev.instrument), Err(e) => format!("error {e:?}") }).collect::<Vec<_>>()), "one unidentifiable-subscription error, no event".into());
+            }
+            continue;
+        }
+        let want = stated(v, sk, m);
+        if out.len() != want.len() || out.iter().any(|r| r.is_err()) {
+            fail(L_SUBSCRIBED, format!("{} outputs: {:?}", out.len(), out.iter().map(|r| match r { Ok(ev) => format!("event for {:?}", ev.instrument), Err(e) => format!("error {e:?}") }).collect::<Vec<_>>()), format!("{} event(s) for instrument #{:?}", want.len(), subscribed));
+            continue;
+        }
+        for (ev, (fields, time)) in out.into_iter().flatten().zip(want) {
+            if !subscribed.iter().any(|j| keys[*j] == ev.instrument) {
+                fail(L_KEY, format!("event carries instrument key {:?}", ev.instrument), format!("key of subscription #{:?}: {:?}", subscribed, subscribed.iter().map(|j| &keys[*j]).collect::<Vec<_>>()));
+            }
+            if ev.exchange != exchange_id(v) { fail(L_EXCHANGE, format!("{:?}", ev.exchange), format!("{:?}", exchange_id(v))); }
+            if ev.kind.fields() != fields { fail(L_FIELDS, format!("{:?}", ev.kind.fields()), format!("{fields:?}")); }
+            if let Some(ts) = time {
+                // Kraken and Gateio spot state the time as a decimal fraction: allow the float rounding
+                let tol = if matches!(v, V::Kraken | V::GateSpot) { 1 } else { 0 };
+                if (ev.time_exchange.timestamp_millis() - ts).abs() > tol { fail(L_TIME, format!("time_exchange {} ms", ev.time_exchange.timestamp_millis()), format!("{ts} ms")); }
+            }
+        }
+    }
+}
+
+const PRICES: [(&str, &str); 5] = [("60000.5", "0.25"), ("0.0125", "100000"), ("1287", "3"), ("24564.5", "200"), ("150.25", "12")];
+
+/// messages for a subscription list: every subscribed market, every market of the universe that is not subscribed, and
+/// near misses of the first subscribed market
+fn messages(v: V, list: &[Inst], universe: &[Inst], salt: usize) -> Vec<Msg> {
+    let mut markets: Vec<String> = vec![];
+    for i in list.iter().chain(universe.iter()) { let m = venue_market(v, i); if !markets.contains(&m) { markets.push(m); } }
+    let first = venue_market(v, &list[0]);
+    for near in [first.to_lowercase(), format!("{first}X"), first[1..].to_string(), format!("{first}-C"), format!("{first}_USDT")] { if !markets.contains(&near) { markets.push(near); } }
+    markets.into_iter().enumerate().map(|(k, market)| {
+        let n = 1 + (k + salt) % 3;
+        let trades = (0..n).map(|j| { let (price, amount) = PRICES[(k + j + salt) % PRICES.len()]; Tr { price, amount, buy: (k + j + salt) % 2 == 0, ts_ms: 1_669_843_487_724 + (k * 1000 + j * 7 + salt) as i64, id: (1000 + k * 10 + j) as u64 } }).collect();
+        let (bp, ba) = PRICES[(k + salt) % PRICES.len()];
+        let (ap, aa) = PRICES[(k + salt + 1) % PRICES.len()];
+        Msg { market, trades, bid: (bp, ba), ask: (ap, aa), ts_ms: 1_669_843_487_724 + (k * 1000 + salt) as i64 }
+    }).collect()
+}
+
+fn same<T>(_: PhantomData<T>, _: PhantomData<T>) {}
+
+macro_rules! venue {
+    ($st:expr, $lists:expr, $v:expr, $sk:expr, $Ex:ty, $K:ty, $kind:expr, $M:ty, $computed_markets:expr) => {{
+        // the transformer driven below is the one the connector's StreamSelector uses
+        same(PhantomData::<<$Ex as StreamSelector<MarketDataInstrument, $K>>::Stream>, PhantomData::<ExchangeWsStream<StatelessTransformer<$Ex, MarketDataInstrument, $K, $M>>>);
+        let (v, sk) = ($v, $sk);
+        let universe = universe(v);
+        for (salt, list) in $lists(&universe).into_iter().enumerate() {
+            let msgs = messages(v, &list, &universe, salt);
+            let payloads: Vec<String> = msgs.iter().map(|m| payload(v, sk, m)).collect();
+            if $computed_markets {
+                let keys: Vec<MarketDataInstrument> = list.iter().map(|i| i.mdi()).collect();
+                let subs: Vec<Subscription<$Ex, MarketDataInstrument, $K>> = keys.iter().map(|i| Subscription::new(<$Ex>::default(), i.clone(), $kind)).collect();
+                judge($st, v, sk, "MarketDataInstrument (key = the instrument)", &list, &keys, &msgs, &payloads, drive::<$Ex, MarketDataInstrument, $K, $M>(&subs, &payloads));
+                let keys: Vec<u32> = (0..list.len() as u32).collect();
+                let subs: Vec<Subscription<$Ex, Keyed<u32, MarketDataInstrument>, $K>> = list.iter().zip(&keys).map(|(i, k)| Subscription::new(<$Ex>::default(), Keyed::new(*k, i.mdi()), $kind)).collect();
+                judge($st, v, sk, "Keyed<#, MarketDataInstrument>", &list, &keys, &msgs, &payloads, drive::<$Ex, Keyed<u32, MarketDataInstrument>, $K, $M>(&subs, &payloads));
+            }
+            let keys: Vec<u32> = (0..list.len() as u32).collect();
+            let subs: Vec<Subscription<$Ex, MarketInstrumentData<u32>, $K>> = list.iter().zip(&keys).map(|(i, k)| Subscription::new(<$Ex>::default(), MarketInstrumentData { key: *k, name_exchange: InstrumentNameExchange::new(venue_market(v, i)), kind: i.kind() }, $kind)).collect();
+            judge($st, v, sk, "MarketInstrumentData<#> (name_exchange = venue market)", &list, &keys, &msgs, &payloads, drive::<$Ex, MarketInstrumentData<u32>, $K, $M>(&subs, &payloads));
+        }
+    }};
+}
+
+fn universe(v: V) -> Vec<Inst> {
+    let pairs: [(&'static str, &'static str); 7] = [("btc", "usdt"), ("BtC", "usdt"), ("btcu", "sdt"), ("1000btc", "usdt"), ("btc", "usd"), ("eth", "usdt"), ("eth", "BTC")];
+    let of = |kind: IK, n: usize| pairs.iter().take(n).map(|(base, quote)| Inst { base, quote, kind }).collect::<Vec<_>>();
+    let opt = |base, call, strike, expiry| Inst { base, quote: "usdt", kind: IK::Opt { call, strike, expiry } };
+    match v {
+        V::BinanceSpot | V::Kraken | V::Coinbase | V::BybitSpot | V::GateSpot => of(IK::Spot, 7),
+        V::BinanceFut | V::BybitPerp | V::GatePerpUsd | V::GatePerpBtc | V::Bitmex => of(IK::Perp, 7),
+        V::GateFutUsd | V::GateFutBtc => { let mut u = of(IK::Fut(E1), 5); u.push(Inst { base: "btc", quote: "usdt", kind: IK::Fut(E2) }); u.push(Inst { base: "eth", quote: "usdt", kind: IK::Fut(E2) }); u }
+        V::GateOpt => vec![opt("btc", true, 35000, E1), opt("BtC", true, 35000, E1), opt("btc", false, 35000, E1), opt("btc", true, 350000, E1), opt("btc", true, 3500, E1), opt("btc", true, 35000, E2), opt("eth", true, 35000, E1)],
+        V::Okx => { let mut u = of(IK::Spot, 4); u.push(Inst { base: "btc", quote: "usdt", kind: IK::Perp }); u.push(Inst { base: "btc", quote: "usdt", kind: IK::Fut(E1) }); u.push(Inst { base: "btc", quote: "usdt", kind: IK::Fut(E2) }); u.push(Inst { base: "btc", quote: "usdt", kind: IK::Fut(E3) }); u.push(opt("btc", true, 35000, E1)); u.push(opt("btc", false, 35000, E1)); u.push(opt("btc", true, 350000, E1)); u }
+    }
+}
+
+pub fn run(seed: u64, thorough: bool) -> u64 {
+    let mut st = St { seen: HashSet::new(), n: 0 };
+    let max_len = if thorough { 4 } else { 3 };
+    let mut rng = Rng::seeded(seed, 13);
+    let mut lists = |u: &Vec<Inst>| -> Vec<Vec<Inst>> {
+        let mut out = vec![];
+        // every ordered list (repetitions allowed) up to a small length
+        for len in 1..=max_len {
+            let width = if len == 4 { u.len().min(6) } else { u.len() };
+            for code in 0..width.pow(len as u32) { let mut c = code; out.push((0..len).map(|_| { let i = u[c % width]; c /= width; i }).collect()); }
+        }
+        // longer seeded random lists
+        for _ in 0..if thorough { 2_000 } else { 40 } { let len = 4 + rng.below(6) as usize; out.push((0..len).map(|_| u[rng.below(u.len() as u64) as usize]).collect()); }
+        out
+    };
+    let st = &mut st;
+    venue!(st, lists, V::BinanceSpot, SK::Trades, BinanceSpot, PublicTrades, PublicTrades, BinanceTrade, true);
+    venue!(st, lists, V::BinanceFut, SK::Trades, BinanceFuturesUsd, PublicTrades, PublicTrades, BinanceTrade, true);
+    venue!(st, lists, V::BinanceSpot, SK::L1, BinanceSpot, OrderBooksL1, OrderBooksL1, BinanceOrderBookL1, true);
+    venue!(st, lists, V::BinanceFut, SK::L1, BinanceFuturesUsd, OrderBooksL1, OrderBooksL1, BinanceOrderBookL1, true);
+    venue!(st, lists, V::Okx, SK::Trades, Okx, PublicTrades, PublicTrades, OkxTrades, true);
+    venue!(st, lists, V::Kraken, SK::Trades, Kraken, PublicTrades, PublicTrades, KrakenTrades, true);
+    venue!(st, lists, V::Kraken, SK::L1, Kraken, OrderBooksL1, OrderBooksL1, KrakenOrderBookL1, true);
+    venue!(st, lists, V::Coinbase, SK::Trades, Coinbase, PublicTrades, PublicTrades, CoinbaseTrade, true);
+    venue!(st, lists, V::BybitSpot, SK::Trades, BybitSpot, PublicTrades, PublicTrades, BybitMessage, true);
+    venue!(st, lists, V::BybitPerp, SK::Trades, BybitPerpetualsUsd, PublicTrades, PublicTrades, BybitMessage, true);
+    venue!(st, lists, V::GateSpot, SK::Trades, GateioSpot, PublicTrades, PublicTrades, GateioSpotTrade, true);
+    venue!(st, lists, V::GateFutUsd, SK::Trades, GateioFuturesUsd, PublicTrades, PublicTrades, GateioFuturesTrades, true);
+    venue!(st, lists, V::GateFutBtc, SK::Trades, GateioFuturesBtc, PublicTrades, PublicTrades, GateioFuturesTrades, true);
+    venue!(st, lists, V::GatePerpUsd, SK::Trades, GateioPerpetualsUsd, PublicTrades, PublicTrades, GateioFuturesTrades, true);
+    venue!(st, lists, V::GatePerpBtc, SK::Trades, GateioPerpetualsBtc, PublicTrades, PublicTrades, GateioFuturesTrades, true);
+    venue!(st, lists, V::GateOpt, SK::Trades, GateioOptions, PublicTrades, PublicTrades, GateioFuturesTrades, true);
+    venue!(st, lists, V::Bitmex, SK::Trades, Bitmex, PublicTrades, PublicTrades, BitmexTrade, true);
+    st.n
+}
